@@ -302,6 +302,18 @@ def rand_filter(rng, corpus, depth):
         r = rng.random()
         if r < 0.75:
             return rand_atom(rng, corpus)
+        if r < 0.81:
+            # one mapping that constrains the same key twice, once dotted and once nested: both constraints hold
+            key = rng.choice(["n.x", "n.z.w", "doc.m.y"])
+            f = rand_atom(rng, corpus, key)
+            (k2, c2), = rand_atom(rng, corpus, key).items()
+            nodes = k2.split(".")
+            nested = c2
+            for n in reversed(nodes[1:]):
+                nested = {n: nested}
+            if nodes[0] not in f:
+                f[nodes[0]] = nested
+            return f
         # conjunction of two atoms on different keys in one mapping
         k1, k2 = rng.sample(QUERY_KEYS, 2)
         if prefixed(k1) == prefixed(k2):
